@@ -328,3 +328,100 @@ Proof.
 Qed.
 
 End RotEri.
+
+(* ==================================================================================================== *)
+(* Examples over Qc: the hypotheses are satisfiable and the STATEMENTS are re-checked by computation (vm_compute,
+   independent of the proofs) with the proper 3-4-5 rotation R345 and the improper Rimp of Proofs/RotationP.v.
+   Stand-ins for the transcendental closures: sqrt = exp = identity (so that the ARGUMENT of exp is visible in the
+   value) and a "Boys function" depending on m and on its argument; the theorems assume nothing about them. *)
+From Coq Require Import ZArith QArith Qcanon.
+Definition eriKQ : Fops Qc := QcK true (Q2Qc 3) (fun x => x) (fun x => x) (fun x => x) exBoys.
+Section Examples.
+Let KQ : Fops Qc := eriKQ.
+Let KQf : is_field KQ := QcK_field _ _ _ _ _ _.
+Let q (n : Z) (d : positive) : Qc := qc_of n d.
+
+Definition eriS1 : shell Qc := mkShell Qc 1 (q 1 2) (q (-1) 1) (q 2 1) [q 3 2] [[q 1 1]] false [] [].
+Definition eriS2 : shell Qc := mkShell Qc 1 (q 0 1) (q 1 3) (q (-1) 1) [q 2 3] [[q 1 1]] false [] [].
+Definition eriS3 : shell Qc := mkShell Qc 1 (q 1 4) (q (-2) 1) (q 1 3) [q 1 2] [[q 1 1]] false [] [].
+Definition eriS4 : shell Qc := mkShell Qc 1 (q (-1) 1) (q 1 2) (q 0 1) [q 5 4] [[q 1 1]] false [] [].
+
+Lemma eriKQ_char0 : forall n, ofnat KQ (S n) <> f0 KQ.
+Proof. apply QcK_char0. Qed.
+Lemma eriKQ_R345 : orthogonal KQ R345. Proof. exact orthogonal_R345. Qed.
+Lemma eriKQ_Rimp : orthogonal KQ Rimp. Proof. exact orthogonal_Rimp. Qed.
+Lemma eriKQ_exps :
+  fadd KQ (q 3 2) (q 2 3) <> f0 KQ /\ fadd KQ (q 1 2) (q 5 4) <> f0 KQ
+  /\ fadd KQ (fadd KQ (q 3 2) (q 2 3)) (fadd KQ (q 1 2) (q 5 4)) <> f0 KQ /\ fadd KQ (f1 KQ) (f1 KQ) <> f0 KQ.
+Proof. repeat split; intro H; apply (f_equal this) in H; vm_compute in H; discriminate H. Qed.
+
+(* the theorem instantiated (improper rotation): nothing left to assume *)
+Example eri_spec_rotation_improper :
+  forall a b c d,
+  Poly3.Jsum KQ (fun a' => Poly3.Jsum KQ (fun b' => Poly3.Jsum KQ (fun c' => Poly3.Jsum KQ (fun d' =>
+      eri_quartet_spec KQ (q 3 2) (q 2 3) (q 1 2) (q 5 4) (centre (rot_shell KQ Rimp eriS1))
+        (centre (rot_shell KQ Rimp eriS2)) (centre (rot_shell KQ Rimp eriS3)) (centre (rot_shell KQ Rimp eriS4))
+        a' b' c' d')
+    (rot_expand KQ Rimp d)) (rot_expand KQ Rimp c)) (rot_expand KQ Rimp b)) (rot_expand KQ Rimp a)
+  = eri_quartet_spec KQ (q 3 2) (q 2 3) (q 1 2) (q 5 4) (centre eriS1) (centre eriS2) (centre eriS3) (centre eriS4)
+      a b c d.
+Proof.
+  intros. destruct eriKQ_exps as (Hp & Hq & Hpq & H2).
+  apply (eri_spec_rotation_covariant_shells KQ KQf Rimp eriS1 eriS2 eriS3 eriS4 _ _ _ _ a b c d
+           eriKQ_Rimp Hp Hq Hpq H2 eriKQ_char0).
+Qed.
+
+(* the statements re-evaluated by computation *)
+Definition eri_eval_check (R : @mat3 Qc) (s : Qc) (t : comp * comp * comp * comp) : bool :=
+  let '(a, b, c, d) := t in
+  let A := centre eriS1 in let B := centre eriS2 in let C := centre eriS3 in let D := centre eriS4 in
+  let rv := RotationMoreP.rotv KQ (matf R) in
+  Qeq_bool
+    (Poly3.Jsum KQ (fun a' => Poly3.Jsum KQ (fun b' => Poly3.Jsum KQ (fun c' => Poly3.Jsum KQ (fun d' =>
+        M4prod KQ (q 3 2) (q 2 3) (q 1 2) (q 5 4) (rv A) (rv B) (rv C) (rv D) s a' b' c' d')
+      (rot_expand KQ R d)) (rot_expand KQ R c)) (rot_expand KQ R b)) (rot_expand KQ R a))
+    (M4prod KQ (q 3 2) (q 2 3) (q 1 2) (q 5 4) A B C D s a b c d).
+Definition eri_spec_check (R : @mat3 Qc) (t : comp * comp * comp * comp) : bool :=
+  let '(a, b, c, d) := t in
+  Qeq_bool
+    (Poly3.Jsum KQ (fun a' => Poly3.Jsum KQ (fun b' => Poly3.Jsum KQ (fun c' => Poly3.Jsum KQ (fun d' =>
+        eri_quartet_spec KQ (q 3 2) (q 2 3) (q 1 2) (q 5 4) (centre (rot_shell KQ R eriS1))
+          (centre (rot_shell KQ R eriS2)) (centre (rot_shell KQ R eriS3)) (centre (rot_shell KQ R eriS4))
+          a' b' c' d')
+      (rot_expand KQ R d)) (rot_expand KQ R c)) (rot_expand KQ R b)) (rot_expand KQ R a))
+    (eri_quartet_spec KQ (q 3 2) (q 2 3) (q 1 2) (q 5 4) (centre eriS1) (centre eriS2) (centre eriS3) (centre eriS4)
+       a b c d).
+Definition eri_quads : list (comp * comp * comp * comp) :=
+  [((1, 0, 0), (0, 0, 0), (0, 1, 0), (0, 0, 0))%nat; ((0, 0, 1), (0, 1, 0), (0, 0, 0), (1, 0, 0))%nat;
+   ((0, 1, 0), (1, 0, 0), (0, 0, 1), (0, 1, 0))%nat; ((0, 0, 0), (0, 0, 0), (0, 0, 0), (0, 0, 0))%nat].
+Example eri_integrand_rotation_computed :
+  forallb (fun R => forallb (fun s => forallb (eri_eval_check R s) eri_quads) [q 0 1; q 1 3; q 1 1])
+    [R345; Rimp] = true.
+Proof. vm_compute. reflexivity. Qed.
+Example eri_spec_rotation_computed :
+  forallb (fun R => forallb (eri_spec_check R)
+    [((1, 0, 0), (0, 0, 0), (0, 1, 0), (0, 0, 0))%nat; ((0, 0, 1), (0, 1, 0), (0, 0, 0), (1, 0, 0))%nat]) [R345; Rimp] = true.
+Proof. vm_compute. reflexivity. Qed.
+(* not vacuous: without the representation matrices a (p s|p s) value does change *)
+Example eri_spec_not_invariant :
+  Qeq_bool
+    (eri_quartet_spec KQ (q 3 2) (q 2 3) (q 1 2) (q 5 4) (centre (rot_shell KQ R345 eriS1))
+       (centre (rot_shell KQ R345 eriS2)) (centre (rot_shell KQ R345 eriS3)) (centre (rot_shell KQ R345 eriS4))
+       (1, 0, 0)%nat (0, 0, 0)%nat (0, 1, 0)%nat (0, 0, 0)%nat)
+    (eri_quartet_spec KQ (q 3 2) (q 2 3) (q 1 2) (q 5 4) (centre eriS1) (centre eriS2) (centre eriS3) (centre eriS4)
+       (1, 0, 0)%nat (0, 0, 0)%nat (0, 1, 0)%nat (0, 0, 0)%nat) = false.
+Proof. vm_compute. reflexivity. Qed.
+End Examples.
+
+Lemma eri_rotation_hypotheses_satisfiable :
+  exists (F : Type) (K : Fops F) (R1 R2 : @mat3 F) (alpha beta gamma delta : F),
+    is_field K /\ orthogonal K R1 /\ orthogonal K R2
+    /\ fadd K alpha beta <> f0 K /\ fadd K gamma delta <> f0 K
+    /\ fadd K (fadd K alpha beta) (fadd K gamma delta) <> f0 K /\ fadd K (f1 K) (f1 K) <> f0 K
+    /\ (forall n, ofnat K (S n) <> f0 K).
+Proof.
+  exists Qc, eriKQ, R345, Rimp, (qc_of 3 2), (qc_of 2 3), (qc_of 1 2), (qc_of 5 4).
+  split; [apply QcK_field|]. split; [apply eriKQ_R345|]. split; [apply eriKQ_Rimp|].
+  destruct eriKQ_exps as (Hp & Hq & Hpq & H2).
+  split; [exact Hp|]. split; [exact Hq|]. split; [exact Hpq|]. split; [exact H2|]. apply eriKQ_char0.
+Qed.
